@@ -21,7 +21,7 @@ META = {
     'design_ref': 'DESIGN.md section 4 C10',
     'theorems': ['C10_spec_partial', 'C10_spec_repeat_partial', 'C10_cache_invariant', 'C10_raise', 'C10_mapped_unaffected',
                  'C10_catchall_exact', 'C10_catchall_rt', 'C10_v1_spec_partial', 'C10_v1_count', 'C10_v1_catchall_rt',
-                 'C10_v1_refuted_shared_key', 'C10_refuted_sentinel_key'],
+                 'C10_v1_refuted_shared_key', 'C10_refuted_sentinel_key', 'C10_refuted_alone_first'],
     'tables': [],
     'level_text': ('Theorems proved in Coq for ALL class configurations (policy x CatchAll x tag key), ALL documents and ALL load '
                    'histories (any sequence of documents through the shared json_to_field cache, hence every repetition count n >= 1) '
@@ -113,6 +113,9 @@ def gen_level(r, engine, depth, counter, raise_, root):
         spec['catch'] = {'name': r.choice(['extras', 'rest', 'unknown_stuff']), 'default': r.random() < 0.5}
     if root and r.random() < 0.4:
         tk = r.choice(['__tag__', '__tag__', 'kind', 'Type'])
+        ints = [f['name'] for f in spec['fields'] if f['kind'] == 'int']
+        if ints and r.random() < 0.3:
+            tk = r.choice(ints)           # Meta.tag_key names one of the class's own fields (upstream issue 148)
         spec['tag'] = {'tag': 'T%d' % counter[0], 'tag_key': tk}
     return spec
 
@@ -258,7 +261,7 @@ def gen_base_doc(r, spec):
                 doc[f['name']] = val
         else:
             doc[ref_casing(f['name'], r.choice(CASINGS)) if r.random() < 0.5 else f['name']] = val
-    if spec['tag'] and r.random() < 0.7:
+    if spec['tag'] and r.random() < 0.7 and spec['tag']['tag_key'] not in ordered_fields(spec):
         doc[spec['tag']['tag_key']] = spec['tag']['tag']
     if r.random() < 0.3:
         ks = list(doc); r.shuffle(ks); doc = {k: doc[k] for k in ks}
@@ -405,6 +408,9 @@ def check_dump(spec, view, dump, path=()):
                 return 'captured pair %r: %r missing from / changed in to_dict output %r' % (k, v, d)
     for f in spec['fields']:
         if f['kind'] == 'nested' and isinstance(view['fields'].get(f['name']), dict) and not f['path'] and not f['aliases']:
+            items = (view.get('catch') or {}).get('items') or []
+            if any(strip_key(k) == strip_key(f['name']) for k, _ in items):
+                continue      # a captured key that normalises to this field's name (outside U) collides with its dump key
             bad = check_dump(f['cls'], view['fields'][f['name']], dump, path + (f['name'],))
             if bad:
                 return bad
@@ -464,8 +470,18 @@ def direct_predicate(spec, doc, res, ms):
     return check_dump(spec, exp, res.get('dump'))
 
 
-def region_of(spec, doc, ms):
+def region_of(spec, doc, ms, alone=None):
     """open finding whose region contains this input, or None"""
+    for f in spec['fields']:
+        # per KEY: the nested class, used alone before, negatively cached exactly these unknown keys
+        if spec['engine'] == 'v0' and spec['raise'] and f['kind'] == 'nested' and alone and f['name'] in alone:
+            seen = set(level_unknown(f['cls'], alone[f['name']], ms))
+            for k, v in doc.items():
+                if classify(spec, k, ms) == ('field', f['name']) and isinstance(v, dict):
+                    u = level_unknown(f['cls'], v, ms)
+                    if u and set(u) <= seen and not level_unknown(spec, doc, ms):
+                        return 'F10-C10-alone-first-negative-cache'
+
     def walk(s, d):
         if s['engine'] == 'v1' and in_f19_region(s) and level_unknown(s, d, ms):
             return 'F19-v1-shared-top-level-key'
@@ -504,6 +520,8 @@ Definition run0 tbl c (docs : list (doc pstr)) : pstr :=
   join (S "|") (map show_out (v0_run (tconv tbl) c (init_cache c) docs)).
 Definition run1 tbl c (docs : list (doc pstr)) : pstr :=
   join (S "|") (map (fun d => show_out (v1_load (tconv tbl) c d)) docs).
+Definition run0p tbl cpre (dpre : doc pstr) c (docs : list (doc pstr)) : pstr :=
+  join (S "|") (map show_out (v0_run (tconv tbl) c (fst (v0_load (tconv tbl) cpre (init_cache cpre) dpre)) docs)).
 Definition res0 (fs : list pstr) (k : pstr) : pstr :=
   match resolve_key_v0 fs k with Some f => S "S" ++ hex f | None => S "N" end.
 '''
@@ -645,8 +663,20 @@ def build_cases(ctx):
             d2 = add_extras(r, spec, gen_base_doc(r, spec), pending, stats)
             loads = r.choice([[d1, d2, d1], [d2, d1], [d1, base, d1]])
             hist = 'mixed%d' % len(loads)
+        # operations before the first load of the root class: the nested class used ALONE (its own default policy,
+        # the per-class key cache is shared with the nested loader generated later), a dump of a hand-built instance
+        alone = {}
+        for f in spec['fields']:
+            if f['kind'] == 'nested' and r.random() < 0.6:
+                reuse = [d[k] for d in loads for k in d if classify(spec, k) == ('field', f['name']) and isinstance(d[k], dict)]
+                if reuse and r.random() < 0.5:
+                    alone[f['name']] = copy.deepcopy(r.choice(reuse))        # the same unknown keys come back later
+                else:
+                    alone[f['name']] = add_extras(r, f['cls'], gen_base_doc(r, f['cls']), pending, [])
+                # the sentinel key in an ALONE load poisons the class (F41, variant c of the witness): kept out of the histories
+                alone[f['name']].pop(SENTINEL, None)
         cases.append({'cls': spec, 'loads': loads, 'hist': hist, 'extra_kinds': stats,
-                      'pre': ('dump' if r.random() < 0.4 else None),
+                      'pre': {'dump': r.random() < 0.4, 'alone': alone},
                       'entry': r.choice(['fromdict', 'fromdict', 'jsonwizard', 'from_json', 'fromlist'])})
     return cases, pending
 
@@ -674,11 +704,14 @@ def run(ctx):
                                                               sum(1 for v in ms.values() if v is None)))
     for c in cases:
         c['loads'] = [drop_known_extras(c['cls'], d, ms) for d in c['loads']]
+        for f in c['cls']['fields']:
+            if f['name'] in c['pre']['alone']:
+                c['pre']['alone'][f['name']] = drop_known_extras(f['cls'], c['pre']['alone'][f['name']], ms)
 
     # ---- implementation ------------------------------------------------------------------------
     impl = ctx.impl('c10', {'cases': [{'cls': c['cls'], 'loads': c['loads'], 'pre': c['pre'], 'entry': c['entry']} for c in cases],
-                            'witness': [{'kind': 'F19'}, {'kind': 'F41'}]})
-    w19, w22 = impl['witness']
+                            'witness': [{'kind': 'F19'}, {'kind': 'F41'}, {'kind': 'F10alone'}]})
+    w19, w22, w10 = impl['witness']
     resolved = set()     # findings whose witness no longer fails: the faithful (defective) model is not compared in their region
     if ctx.finding('F19-v1-shared-top-level-key'):
         still = bool(w19.get('accepted_unknown'))
@@ -687,11 +720,20 @@ def run(ctx):
         if not still:
             resolved.add('F19-v1-shared-top-level-key')
     if ctx.finding('F41-catchall-sentinel-key'):
-        still = bool(w22.get('with_default', {}).get('err') == 'KeyError' or w22.get('no_default_dropped'))
+        still = bool(w22.get('with_default', {}).get('err') == 'KeyError' or w22.get('no_default_dropped') or w22.get('poisoned'))
         ctx.known_finding('F41-catchall-sentinel-key', still_fails=still)
         ctx.count(1, key='witness:F41', nontrivial=True)
         if not still:
             resolved.add('F41-catchall-sentinel-key')
+    if ctx.finding('F10-C10-alone-first-negative-cache'):
+        still = bool(w10.get('seen_key_accepted'))
+        ctx.known_finding('F10-C10-alone-first-negative-cache', still_fails=still)
+        ctx.count(1, key='witness:F10alone', nontrivial=True)
+        if not still:
+            resolved.add('F10-C10-alone-first-negative-cache')
+    if not w10.get('unseen_key_rejected', True):
+        ctx.violation('default engine: nested class loaded alone first, then a strict recursive outer class: an unknown nested key that '
+                      'was never seen before is accepted', {'kind': 'F10alone'})
 
     # ---- model, phase 1 (nested levels) and phase 2 (root levels) ------------------------------
     def level_expr(spec, flat, tbl):
@@ -713,7 +755,13 @@ def run(ctx):
                     if not idx:
                         continue
                     cflat, _ = level_docs(f['cls'], [children[j][f['name']] for j in idx], ms)
-                    exprs1.append(level_expr(f['cls'], cflat, []))
+                    if f['cls']['engine'] == 'v0' and f['name'] in c['pre']['alone']:
+                        # the nested class was loaded ALONE first (default policy), same per-class key cache
+                        aflat, _ = level_docs(f['cls'], [c['pre']['alone'][f['name']]], ms)
+                        exprs1.append('run0p [] %s %s %s %s' % (coq_cls(dict(f['cls'], **{'raise': False})), coq_docs(aflat)[1:-1],
+                                                              coq_cls(f['cls']), coq_docs(cflat)))
+                    else:
+                        exprs1.append(level_expr(f['cls'], cflat, []))
                     where1.append((ci, f['name'], idx))
             outs1 = ctx.coq(exprs1, ['FieldsUnknown'], prelude=PRELUDE, tag='phase1') if exprs1 else []
             for (ci, fname, idx), o in zip(where1, outs1):
@@ -744,7 +792,7 @@ def run(ctx):
         ctx.hist('engine/policy', '%s/%s/%s%s' % (spec['engine'], 'raise' if spec['raise'] else 'ignore',
                                                   ('catch_default' if spec['catch']['default'] else 'catch') if spec['catch'] else 'nocatch',
                                                   '/tag' if spec['tag'] else ''))
-        ctx.hist('history', ('dump-first+' if c['pre'] else '') + c['hist'])
+        ctx.hist('history', ('alone-first+' if c['pre']['alone'] else '') + ('dump-first+' if c['pre']['dump'] else '') + c['hist'])
         ctx.hist('entry_point', c['entry'])
         ctx.hist('depth', 2 if any(f['kind'] == 'nested' for f in spec['fields']) else 1)
         for k in c['extra_kinds']:
@@ -757,15 +805,15 @@ def run(ctx):
             ctx.hist('outcome', spec['engine'] + '/' + ('ok' if 'ok' in res else res.get('err', '?')))
             bad = direct_predicate(spec, d, res, ms)
             if bad:
-                reg = region_of(spec, d, ms)
+                reg = region_of(spec, d, ms, c['pre']['alone'])
                 if reg and ctx.is_open_region(reg):
                     ctx.hist('known_region', reg)
                 else:
                     ctx.violation('%s engine, class %s, load %d of the history, document %s: %s' %
                                   (spec['engine'], spec['name'], j + 1, json.dumps(d)[:200], bad),
                                   {'kind': 'case', 'cls': spec, 'loads': c['loads'], 'index': j, 'pre': c['pre'], 'entry': c['entry'], 'model_says': [[list(k[0]), k[1], v] for k, v in ms.items() if k[0] == tuple(ordered_fields(spec))]})
-            if model_ok and region_of(spec, d, ms) in resolved:
-                ctx.hist('resolved_region_direct_predicate_only', region_of(spec, d, ms))
+            if model_ok and region_of(spec, d, ms, c['pre']['alone']) in resolved:
+                ctx.hist('resolved_region_direct_predicate_only', region_of(spec, d, ms, c['pre']['alone']))
             elif model_ok:
                 ctx.traces_validated += 1
                 mo = parse_out(mparts[j]) if not mparts[j].startswith('U:') else parse_unknown(mparts[j])
@@ -804,12 +852,16 @@ def replay(ctx, obj):
                 ok = False
         return ok
     fid = obj.get('finding') or ''
+    if obj.get('kind') == 'F10alone' or fid.startswith('F10'):
+        w = ctx.impl('c10', {'witness': [{'kind': 'F10alone'}]})['witness'][0]
+        print('witness outcome: %s' % json.dumps(w)[:600])
+        return bool(w.get('unseen_key_rejected')) and (obj.get('kind') == 'F10alone' or not w.get('seen_key_accepted'))
     if obj.get('kind') in ('F19', 'F41') or fid.startswith('F19') or fid.startswith('F41'):
         kind = 'F19' if (obj.get('kind') == 'F19' or fid.startswith('F19')) else 'F41'
         w = ctx.impl('c10', {'witness': [{'kind': kind}]})['witness'][0]
         print('witness outcome: %s' % json.dumps(w)[:600])
         if kind == 'F19':
             return not w.get('accepted_unknown')
-        return not (w.get('with_default', {}).get('err') == 'KeyError' or w.get('no_default_dropped'))
+        return not (w.get('with_default', {}).get('err') == 'KeyError' or w.get('no_default_dropped') or w.get('poisoned'))
     print('replay object names a broken tie, not an input: %s' % json.dumps(obj)[:1000])
     return False
